@@ -25,6 +25,8 @@ pub enum Flavor {
     Handoff,
     /// C10: drain probes
     Drain,
+    /// C17: through the zone wrapper with an offset
+    Zone,
 }
 
 pub fn frame_choices(rng: &mut Rng, max_trees: usize) -> usize {
@@ -141,7 +143,17 @@ impl Gen<'_> {
         let init = if self.flavor == Flavor::SingleSlot || self.rng.chance(2, 3) { "free" } else { "alloc" };
         let cl = Config { frames, classes, default, pol };
         self.q(format!("geom {HUGE_ORDER} {TREE_HUGE}"));
-        let a = self.q(format!("new {frames} {init} {default} {} {}", cl.pol.name(), cl.classes_str()));
+        let zone = if self.flavor == Flavor::Zone {
+            let off = match self.rng.below(6) {
+                0 => 0,
+                1 => TREE_FRAMES * (1 + self.rng.below(5)) + 1 + self.rng.below(TREE_FRAMES - 1), // misaligned: rejected
+                _ => TREE_FRAMES * (1 + self.rng.below(1000)),
+            };
+            format!(" zone:{off}")
+        } else {
+            String::new()
+        };
+        let a = self.q(format!("new {frames} {init} {default} {} {}{zone}", cl.pol.name(), cl.classes_str()));
         if a != "ok" {
             return false;
         }
@@ -422,6 +434,56 @@ impl Gen<'_> {
                         self.q("tstats".into());
                     }
                 },
+                Flavor::Zone => {
+                    let off = self.eng.inst.as_ref().unwrap().offset;
+                    let c = self.cfg();
+                    match r {
+                        0..=39 => {
+                            let order = self.rand_order();
+                            let class = self.rand_class();
+                            let local = self.rand_local(class);
+                            let target = match self.rng.below(6) {
+                                0 => Some(off + (self.rng.below(c.frames) >> order << order)),
+                                1 => Some(self.rng.below(off + 1)),
+                                2 => Some(off.saturating_sub(1 + self.rng.below(3))),
+                                _ => None,
+                            };
+                            self.q(format!("zget {order} {class} {} {}", opt(local), opt(target)));
+                            self.post();
+                        }
+                        40..=79 => {
+                            let class = self.rand_class();
+                            let local = self.rand_local(class);
+                            let (f, o) = if !self.eng.held.is_empty() && self.rng.chance(4, 5) {
+                                let i = self.rng.below(self.eng.held.len());
+                                self.eng.held[i]
+                            } else {
+                                (self.rng.below(c.frames), 0)
+                            };
+                            let zf = match self.rng.below(10) {
+                                0 => f,                       // forgot the offset
+                                1 => off.saturating_sub(1),
+                                _ => f + off,
+                            };
+                            self.q(format!("zput {zf} {o} {class} {}", opt(local)));
+                            self.post();
+                        }
+                        80..=89 => {
+                            let f = match self.rng.below(4) {
+                                0 => self.rng.below(off + 1),
+                                _ => off + self.rng.below(c.frames),
+                            };
+                            let o = *self.rng.pick(&[0, HUGE_ORDER, TREE_ORDER]);
+                            let f = if o == 0 { f } else if f >= off { off + ((f - off) >> o << o) } else { f };
+                            self.q(format!("zstatsat {f} {o}"));
+                        }
+                        90..=94 => {
+                            self.q("drain".into());
+                            self.post();
+                        }
+                        _ => self.validate_if_online(),
+                    }
+                }
                 _ => match r {
                     0..=34 => {
                         self.op_get(false);
